@@ -17,25 +17,25 @@ UNIT_NOTE = {
 
 CLAIMS = {
     "C01": ("exploration", "reference-model replica monitor over seeded histories on the simulated kernel (runtime monitoring)",
-            "Random multi-peer histories on the real daemon; every fetch's replayed notification stream is compared with a reference model at every quiescent point, on default/tiny/one/wide table and batch configurations.", "4 C01"),
+            "Random multi-peer histories on the real daemon; every fetch's replayed notification stream is compared with a reference model at every quiescent point, on default/tiny/one/wide/odd/roomy table and batch configurations; histories of 40..250 operations plus a few of 2 500 (thorough: 12 000) operations on one daemon, dense runs of the path index, slow subscribers, access groups, bare special values, messages filled to the limit.", "4 C01"),
     "C02": ("exploration", "JSON-RPC ledger monitor over grammar-generated requests (runtime monitoring)",
-            "Every generated request is entered into a ledger keyed by connection and id; responses decoded from the wire are matched online (exactly one, right id, right connection, in order).", "4 C02"),
+            "Every generated request is entered into a ledger keyed by connection and id; responses decoded from the wire are matched online (exactly one, right id, right connection, in order); requesters that stop reading, batches that end in a malformed element, last words in front of the end of a stream, a failing timer disarm.", "4 C02"),
     "C03": ("exploration", "routing-ledger monitor with virtual clock (runtime monitoring)",
-            "Every set/call is tracked from the caller through the forwarded request on the owner's connection to the final answer; deadlines use the simulated clock.", "4 C03"),
+            "Every set/call is tracked from the caller through the forwarded request on the owner's connection to the final answer; deadlines use the simulated clock; long histories (hundreds of routed requests on one daemon), odd / empty / very long / look-alike caller ids, payloads that grow when printed, callers replaced by successors, a failing timer disarm.", "4 C03"),
     "C04": ("exploration", "reference-map monitor compared after every response, observer replica and get results (runtime monitoring)",
-            "A reference map predicts the class of every well-formed request and is compared with a fetch-all observer and get results at every quiescent point.", "4 C04"),
+            "A reference map predicts the class of every well-formed request and is compared with a fetch-all observer and get results at every quiescent point; paths that are not UTF-8 or hold escapes followed by hexadecimal digits, bare special values, dense runs of the path index, requests without a usable id (read back), allocation failures, long histories.", "4 C04"),
     "C07": ("exploration", "resource monitor (accounting, descriptor table, timers, epoll registrations at quiescence and at exit), descriptor-hygiene monitor of the simulated kernel, LeakSanitizer",
-            "Bus and hostile histories incl. half-open HTTP upgrades and injected set-up failures, followed by closing everything (idle baseline) or SIGTERM at a seeded step (exit 0, heap 0, nothing open, LSan silent); simulated descriptors are never reused so double close / use after close / foreign descriptors are always visible; heap-cap assertion in the allocation tap.", "4 C07"),
+            "Bus and hostile histories incl. half-open HTTP upgrades and injected set-up failures, followed by closing everything (idle baseline) or SIGTERM at a seeded step (exit 0, heap 0, nothing open, LSan silent); simulated descriptors are never reused so double close / use after close / foreign descriptors are always visible; heap-cap assertion in the allocation tap; every system call of a corpus of 8 scripted sessions fails once (enumerated), updates of the credential file that fail at write / fsync / rename (descriptors of files the daemon opened itself are part of the baseline).", "4 C07"),
     "C08": ("exploration", "reference model with groups, allocator fill-byte variation and heap pre-conditioning, password-token scan of all output (runtime monitoring)",
             "Generated credential files and access declarations; visibility and set/call rights of every peer compared with a reference model; uninitialised memory explored through ASan malloc_fill_byte 0x00/0xff/0xa5/seeded and recycled chunks; every output byte and log line searched for the unique password tokens; local-only add from all origin kinds.", "4 C08"),
     "C14": ("exploration", "routing ledger on a virtual clock with explicitly composed epoll batches (runtime monitoring + ASan)",
-            "Timeout grid x precedence; armed timerfd value compared with floor(t*1e9); clock stepped to deadline-1ns / deadline; expiry raced against reply / caller and owner FIN/RST inside one harvested batch in both orders on batch sizes 1,2,10,64.", "4 C14"),
+            "Timeout grid x precedence; armed timerfd value compared with floor(t*1e9); clock stepped to deadline-1ns / deadline; expiry raced against reply / caller and owner FIN/RST inside one harvested batch in both orders on batch sizes 1,2,10,64; callers replaced by successors that number their requests alike (with immediate reuse of released memory), a failing timer disarm, look-alike ids up to the length of a message.", "4 C14"),
     "C19": ("exploration", "round-trip differential against Python zlib as the second endpoint, ASan/UBSan/LSan on corrupt streams, RFC 7692 negotiation oracle (runtime monitoring)",
-            "Server-side WebSocket endpoint on an in-memory reader: server-to-client and client-to-server round trips for every payload class, level, window size, takeover setting and fragmentation incl. interleaved pings, corrupt / adversarial compressed streams under sanitizers, grammar-generated extension offers checked against RFC 7692 7.1.", "4 C19"),
+            "Server-side WebSocket endpoint on an in-memory reader: server-to-client and client-to-server round trips for every payload class, level, window size, takeover setting and fragmentation incl. interleaved pings, corrupt / adversarial compressed streams under sanitizers, grammar-generated extension offers checked against RFC 7692 7.1; 2-4 connections with different parameters side by side in one process (broadcasts; connections replacing each other), messages that inflate to exactly the size of a grown output buffer, the books of the capped allocator after the last connection.", "4 C19"),
     "C20": ("fault_enumeration", "crash-point / short-write / error enumeration on intercepted file-system calls with fresh-loader probes; authorisation matrix on the daemon",
-            "Every crash point before/after each mutating file-system call of a password change, sampled short-write counts and ENOSPC/EIO/EINTR per call; each on-disk snapshot probed by a fresh process with the real loader (old set or new set, never neither); daemon-level authorisation matrix over user kinds.", "4 C20"),
+            "Every crash point before/after each mutating file-system call of a password change, sampled short-write counts and ENOSPC/EIO/EINTR per call; each on-disk snapshot probed by a fresh process with the real loader (old set or new set, never neither); daemon-level authorisation matrix over user kinds; the same enumeration with the credential file at the longest paths the system accepts, restarts on every directory state a crashed update leaves, odd (empty, 1-character, 280-character) passwords.", "4 C20"),
     "C15": ("fault_enumeration", "single-fault enumeration over every allocation of a scripted corpus (countdown failure injection in the allocation tap) with sanitizers, ledger, victim attribution and post-fault probe",
-            "For each of 7 scripted sessions every allocation index fails in turn (exhaustive in thorough, every 2nd in quick), plus multi-fault runs and histories under a reduced heap cap; ASan/UBSan/LSan, at most one response per request, only the victim connection may be dropped, a fresh connection is served afterwards, accounting returns to the baseline.", "4 C15"),
+            "For each of 8 scripted sessions every allocation index fails in turn (exhaustive in thorough, every 2nd in quick), plus multi-fault runs and histories under a reduced heap cap; ASan/UBSan/LSan, at most one response per request, only the victim connection may be dropped, a fresh connection is served afterwards, accounting returns to the baseline; fetch / unfetch / add / change / remove / passwd with every allocation failing once (with 0..16 other subscribers in place), allocation failures inside bursts of connection attempts.", "4 C15"),
     "C16": ("exploration", "reference matcher vs get/fetch results of the real daemon over an adversarial operand alphabet (runtime monitoring)",
             "All single matchers x 41 operands x 3 option settings x 40 paths exhaustively, random multi-matcher rules, ill-formed rules and repeated option keys; results of the real daemon compared with an independent Python matcher.", "4 C16"),
     "C18": ("exploration", "differential monitoring of the real validator against an independent RFC 3629 DFA (product exploration, word sweeps)",
@@ -45,9 +45,9 @@ CLAIMS = {
     "C09": ("exploration", "differential monitoring: reference execution vs kernel-policy variants (segmentation, coalescing, batching, spurious wake-ups, read-buffer scribbling); parse_message content tap",
             "The same multi-connection script is executed as reference and under up to 16 kernel policies incl. scribbling of the read buffer behind the received bytes; decoded outputs per connection must be identical; the content handed to the JSON layer must equal the k-th message sent.", "4 C09"),
     "C10": ("fault_enumeration", "byte-exact comparison of the kernel-accepted stream with the frames generated by the daemon (send-call tap) under enumerated write acceptance behaviours",
-            "Write budgets, per-call caps, refills and hard errors are enumerated around frames of controlled sizes; for the 256-byte buffer configuration the acceptance point covers every byte position of two consecutive frames; equality once writable, prefix while blocked/closed, no spinning, always back to epoll_wait.", "4 C10"),
+            "Write budgets, per-call caps, refills and hard errors are enumerated around frames of controlled sizes; for the 256-byte buffer configuration the acceptance point covers every byte position of two consecutive frames; equality once writable, prefix while blocked/closed, no spinning, always back to epoll_wait; transient write errors (ENOBUFS / ENOMEM / EAGAIN for a single call) during a flush, frames longer than the write buffer, SO_LINGER / blocking-mode modelling of the simulated kernel.", "4 C10"),
     "C11": ("fault_enumeration", "replica / RPC / routing monitors restricted to healthy peers while seeded faults (stall, write errors, RST, garbage, accept failures) hit other peers; read-back of uncertain effects",
-            "Random histories with a growing set of faulty peers at seeded subscriber-table positions; healthy peers' replicas, responses and routed requests stay under the strict monitors; after accept() failures a fresh connection must be served.", "4 C11"),
+            "Random histories with a growing set of faulty peers at seeded subscriber-table positions; healthy peers' replicas, responses and routed requests stay under the strict monitors; after accept() failures a fresh connection must be served; bursts of pending connections with one failing set-up, last words in front of a FIN, every system call of a scripted corpus failing once (enumerated): only connections involved in the failing call may be lost.", "4 C11"),
     "C12": ("exploration", "strict RFC 6455 decoder and close-status oracle on the real endpoint, digest recomputation, raw/WebSocket transparency differential (runtime monitoring)",
             "Handshake variants, strict decoding of every server frame, ping/pong over all control payload lengths and mask patterns, the listed protocol violations with their required close status, legal closes, identical JSON-RPC dialogue on raw and WebSocket transports.", "4 C12"),
     "C17": ("exploration", "reference-map and structural-invariant monitor on the real hashtable.h macros (exhaustive small orders, adversarial random histories)",
